@@ -452,12 +452,12 @@ fn check_file(cx: &mut Cx, tag: &str, bytes: &[u8], sch: &Sch, want: &Table, wan
         if ok {
             compare_path(cx, tag, "lazy get_record", &gr, &lget, sch, Want::Eager(&eager, eager_res.as_ref()), ctx);
         }
+        // an index past the end must not produce a record (both tiers: the eager set has no such record)
+        if lazy.get_record(n as u32).is_ok() {
+            cx.viol(format!("{tag}: lazy get_record returns a record for an index past the end"), ctx.to_string());
+        }
         if cx.deep {
             check_by_name(cx, tag, "lazy get_record", &gr_recs, sch, ctx);
-            // an index past the end must not produce a record
-            if lazy.get_record(n as u32).is_ok() {
-                cx.viol(format!("{tag}: lazy get_record returns a record for an index past the end"), ctx.to_string());
-            }
         }
     }
     // ---- memory-mapped (file on disk in the scratch dir)
